@@ -15,6 +15,7 @@ import Wax.Proofs.Exhaustive
 import Wax.Cmd.Frag2
 import Wax.Unicode
 import Wax.SemSpec
+import Wax.RuleSpec
 open Wax
 
 def unhex (s : String) : Str :=
@@ -24,6 +25,24 @@ def unhex (s : String) : Str :=
       let d := if c.isDigit then c.toNat - '0'.toNat else c.toNat - 'a'.toNat + 10
       a * 16 + d) 0
     Char.ofNat n
+
+/-- the tree of a combinator: a top-level alternation of the patterns' trees (`token::any`) -/
+def anyTree (nested : Bool) (hs : List String) : Option Tok :=
+  let ts := hs.map (fun h => parse (unhex h))
+  if ts.any (fun r => match r with | .ok _ => false | _ => true) then none else
+  let toks := ts.filterMap (fun r => match r with | .ok t => some t | _ => none)
+  if nested then
+    match toks with
+    | t :: rest => some (.alt ⟨0, 0⟩ [.alt ⟨0, 0⟩ [t], .alt ⟨0, 0⟩ rest])
+    | [] => none
+  else some (.alt ⟨0, 0⟩ toks)
+
+def anyCmd (cmd : String) (hs : List String) : String :=
+  match anyTree (cmd == "AN" || cmd == "FAN") hs with
+  | none => "err"
+  | some t =>
+    if cmd == "A" || cmd == "AN" then s!"ok - | {hexStr (compilePattern t).toList}"
+    else cmdF t
 
 def handle (line : String) : String :=
   match line.trimAscii.toString.splitOn " " with
@@ -133,6 +152,18 @@ def handle (line : String) : String :=
     match parse (unhex h) with
     | .err _ => "err"
     | .ok t => if (encodeTop t).matchB drvSem (unhex ph) then "1" else "0"
+  | "A" :: _ :: hs => anyCmd "A" hs
+  | "AN" :: _ :: hs => anyCmd "AN" hs
+  | "FA" :: _ :: hs => anyCmd "FA" hs
+  | "FAN" :: _ :: hs => anyCmd "FAN" hs
+  | ["F06", h] =>
+    match parse (unhex h) with
+    | .err _ => "err"
+    | .ok t => cmdF06 t
+  | ["WF", h] =>
+    match parse (unhex h) with
+    | .err _ => "err"
+    | .ok t => match wfSpec t with | some true => "accept" | some false => "reject" | none => "skip"
   | ["SL", h] =>
     match parse (unhex h) with
     | .err _ => "err"
